@@ -1085,3 +1085,73 @@ pub fn check_expansion_expr(x: &syn::Expr, value_names: &HashSet<String>) -> Res
         None => Ok(()),
     }
 }
+
+// ---------------------------------------------------------------------- pinned primitives (C-PRIM)
+
+/// the text of a function that is pinned: its attributes (doc comments excepted), signature and
+/// body, as `quote!` prints them, without white space
+pub fn pin_text(attrs: &[syn::Attribute], vis: &syn::Visibility, sig: &syn::Signature, block: &syn::Block) -> String {
+    let mut s = String::new();
+    for a in attrs {
+        if attr_name(a) != "doc" {
+            s.push_str(&nospace(&a.to_token_stream().to_string()));
+        }
+    }
+    s.push_str(&nospace(&vis.to_token_stream().to_string()));
+    s.push_str(&nospace(&sig.to_token_stream().to_string()));
+    s.push_str(&nospace(&block.to_token_stream().to_string()));
+    s
+}
+
+/// every function of `file` that may be pinned: (owner, name, text); owner = "" for a free function,
+/// "<trait> for <type>" / "<type>" for an impl
+pub fn pinnable(file: &syn::File) -> Vec<(String, String, String)> {
+    let mut v = vec![];
+    for it in &file.items {
+        match it {
+            syn::Item::Fn(f) => v.push((String::new(), f.sig.ident.to_string(), pin_text(&f.attrs, &f.vis, &f.sig, &f.block))),
+            syn::Item::Impl(im) => {
+                let ty = nospace(&im.self_ty.to_token_stream().to_string());
+                let owner = match &im.trait_ {
+                    Some((_, p, _)) => format!("{} for {}", nospace(&p.to_token_stream().to_string()), ty),
+                    None => ty,
+                };
+                for ii in &im.items {
+                    if let syn::ImplItem::Fn(f) = ii {
+                        v.push((owner.clone(), f.sig.ident.to_string(), pin_text(&f.attrs, &f.vis, &f.sig, &f.block)));
+                    }
+                }
+            }
+            syn::Item::Enum(e) => v.push(("enum".into(), e.ident.to_string(), nospace(&e.to_token_stream().to_string()))),
+            _ => {}
+        }
+    }
+    v
+}
+
+/// C-PRIM: the primitives that the translation calls by name with the meaning of the hand models
+/// (rule 10: model/Num.v `from_bits`, model/FloatOps.v `f_from_u64`, model/Number.v `pow_fast_path`
+/// / `int_pow_fast_path`; `to_bits`; the `powf` / `powd` wrappers; `FastPathRadix` and its
+/// conversion).  Their text is not translated, so it must be, token for token, today's.
+pub fn check_pinned_primitives(fname: &str, file: &syn::File) -> Vec<String> {
+    let mut problems = vec![];
+    let have = pinnable(file);
+    for (f, owner, name, want) in crate::pins::PRIMITIVES.iter() {
+        if *f != fname {
+            continue;
+        }
+        let found: Vec<&(String, String, String)> = have.iter().filter(|(o, n, _)| o == owner && n == name).collect();
+        match found.as_slice() {
+            [(_, _, got)] if got == want => {}
+            [(_, _, _)] => problems.push(format!(
+                "the primitive `{}{}{}` (rule 10: called by name with the meaning of the hand model) is no longer, token for token, today's",
+                owner,
+                if owner.is_empty() { "" } else { " :: " },
+                name
+            )),
+            [] => problems.push(format!("the primitive `{} {}` is missing", owner, name)),
+            _ => problems.push(format!("the primitive `{} {}` is defined more than once", owner, name)),
+        }
+    }
+    problems
+}
